@@ -302,12 +302,11 @@ def r1(ctx: Ctx) -> None:
     from .common import unversion
     cpr = unversion(canon_function(fpr, m), 0)       # the reader first coerces a list argument into a tuple
     ctx.site(fpr.where, "rectangle reader: 4..5 entries, four numerics >= 0")
-    okr = False
-    for lp in _loops(cpr, lambda lp: lp[2] == ("c", ("g", "range"), (k_num(4),), ())):
-        e_ = ("s", ("p", 0), lp[1])
-        ta_ = top_asserts(lp[3])
-        if mk_not(mk_lt(e_, k_num(0))) in ta_ and any(contains(t, ("g", "isinstance")) and contains(t, e_) for t in ta_):
-            okr = True
+    # the four numeric fields, each asserted to be a number and >= 0 (a loop over range(4) is, in the normal form, one
+    # assertion per field)
+    ta_ = top_asserts(cpr)
+    okr = all(mk_not(mk_lt(("s", ("p", 0), k_num(i)), k_num(0))) in ta_
+              and any(contains(t, ("g", "isinstance")) and contains(t, ("s", ("p", 0), k_num(i))) for t in ta_) for i in range(4))
     if not okr:
         ctx.report(fpr.where, "reject-rect-fields", "parse_yaml_rectangle does not check all four of x, y, w, h to be numbers >= 0", lineno=fpr.node.lineno)
 
